@@ -6,11 +6,14 @@
 //   progs (d0 d1 …) <term>    the same with a scheduling oracle: before every leaf operation of whatever goroutine is
 //                             running one number is consumed; d>0 runs waiting goroutine number (d-1) mod #waiting to
 //                             completion right there (lean/Pcore/Model/Tls.lean `yield`)
+//   progi (d0 d1 …) <term>    leaf-level interleaving (lean/Pcore/Model/TlsSmall.lean `runI`): every goroutine parks before each leaf
+//                             operation and at its start; a controller resumes runnable goroutine number d mod #runnable
+//                             (ascending goroutine id; default 0), which runs up to its next leaf or its end
 // op (implementation only):
 //   @free <n> <term>          n groups run the program concurrently with no gates at all (real scheduling, all cores);
 //                             only the schedule-independent predicates are evaluated
 //
-//   term ::= (obs) | (set k n) | (get k) | (push n) | (deftype a) | (load a) | (panic)
+//   term ::= (obs) | (set k n) | (get k) | (del k) | (push n) | (pop) | (deftype a) | (load a) | (panic)
 //          | (doctx id term…) | (doparent id term…) | (do id term…) | (try id term…) | (doloader term…) | (fork term…) | (go term…) | (seq term…) | (recover term…)
 //
 // Output (see lean/Driver/C14.lean): `g0:N ev … | g1:P ev … ; cur=- live=0`.
@@ -19,7 +22,10 @@
 // parent-invisible-to-child, fork-copy-late, tls-leak, crash (+ wrong-var / wrong-stack / wrong-load for a disagreement
 // with the reference semantics that fits none of the named classes).  They are evaluated against a *shadow*: every real
 // context has a shadow holding what its variables, stack and loader chain must be under the property (copied in the
-// parent at the Fork call, private afterwards); every stored value carries who stored it and when.
+// parent at the Fork call, private afterwards); every stored value carries who stored it and when.  A context's printable
+// identity (its tag) lives in the harness' registry (context object → shadow), NOT in the context: a tag variable would keep
+// every variable map non-empty and hide the states "never allocated" and "allocated, emptied by Delete".  After everything
+// has ended every context ever bound is audited once more against its shadow (`final audit`).
 package c14
 
 import (
@@ -62,7 +68,7 @@ type node struct {
 	kids []*node
 }
 
-var leafOps = map[string]bool{"obs": true, "panic": true, "set": true, "get": true, "push": true, "deftype": true, "load": true}
+var leafOps = map[string]bool{"obs": true, "panic": true, "set": true, "get": true, "del": true, "push": true, "pop": true, "deftype": true, "load": true}
 
 func okAtom(s string) bool {
 	if len(s) == 0 || len(s) > 8 {
@@ -102,7 +108,7 @@ func parse(s sx.Sexp) (*node, bool) {
 		return r, true
 	}
 	switch tag {
-	case "obs", "panic":
+	case "obs", "panic", "pop":
 		return &node{op: tag}, len(a) == 0
 	case "set":
 		if len(a) != 2 || a[0].IsList || !okAtom(a[0].Atom) {
@@ -110,7 +116,7 @@ func parse(s sx.Sexp) (*node, bool) {
 		}
 		n, ok := natOf(a[1])
 		return &node{op: tag, k: a[0].Atom, n: n}, ok
-	case "get", "deftype", "load":
+	case "get", "del", "deftype", "load":
 		if len(a) != 1 || a[0].IsList || !okAtom(a[0].Atom) {
 			return nil, false
 		}
@@ -140,11 +146,11 @@ func parse(s sx.Sexp) (*node, bool) {
 
 func (n *node) sexp() sx.Sexp {
 	switch n.op {
-	case "obs", "panic":
+	case "obs", "panic", "pop":
 		return sx.T(n.op)
 	case "set":
 		return sx.T(n.op, sx.A(n.k), sx.Int(int64(n.n)))
-	case "get", "deftype", "load":
+	case "get", "del", "deftype", "load":
 		return sx.T(n.op, sx.A(n.k))
 	case "push":
 		return sx.T(n.op, sx.Int(int64(n.n)))
@@ -202,6 +208,7 @@ type sctx struct {
 	vars   map[string]cell
 	stack  []cell // val = line
 	loader *sloader
+	tag    int // printable identity (-1 = none yet)
 }
 
 type task struct {
@@ -217,6 +224,10 @@ type glog struct {
 
 type runner struct {
 	gated   bool
+	inter   bool // leaf-level interleaving: goroutines park before every leaf, a controller picks who goes on
+	ctl     chan ievt
+	waiting []*task              // inter: started by px.Fork, not yet released (ascending gid)
+	turns   map[int]chan struct{} // inter: parked goroutines
 	mu      sync.Mutex // guards everything below in free mode (in gated mode exactly one goroutine runs at a time)
 	sched   []int
 	pending []*task
@@ -229,6 +240,13 @@ type runner struct {
 	clock   int64
 	keys    []string
 	wg      sync.WaitGroup
+}
+
+// ievt is what a goroutine tells the controller when it stops running: it parked before a leaf, or it ended
+type ievt struct {
+	gid    int
+	parked bool
+	turn   chan struct{}
 }
 
 var errBoom = errors.New("boom")
@@ -266,7 +284,7 @@ func (r *runner) setOutcome(g *ginfo, o string) {
 func (r *runner) newShadow(parent *sctx, g *ginfo) *sctx {
 	r.mu.Lock()
 	r.nextSer++
-	s := &sctx{serial: r.nextSer, parent: parent, g: g, forkAt: r.tick(), vars: map[string]cell{}}
+	s := &sctx{serial: r.nextSer, parent: parent, g: g, forkAt: r.tick(), vars: map[string]cell{}, tag: -1}
 	r.bySer[s.serial] = s
 	r.mu.Unlock()
 	if parent != nil {
@@ -407,11 +425,31 @@ func (r *runner) audit(s *sctx, where string) {
 	for _, k := range r.keys {
 		r.checkVar(s, k, where)
 	}
-	r.checkVar(s, tagKey, where)
 	r.checkStack(s, where)
 }
 
-const tagKey = "tag"
+// finalAudit: every goroutine has ended; every context object that was ever bound must still agree with its shadow
+func (r *runner) finalAudit() {
+	sers := make([]int, 0, len(r.bySer))
+	for k := range r.bySer {
+		sers = append(sers, k)
+	}
+	sort.Ints(sers)
+	for _, k := range sers {
+		r.audit(r.bySer[k], "final audit")
+	}
+}
+
+// tagOf is the printable identity of a context object: its number in the registry, "?" when it has none
+func (r *runner) tagOf(c px.Context) string {
+	r.mu.Lock()
+	s := r.byReal[c]
+	r.mu.Unlock()
+	if s == nil || s.tag < 0 {
+		return "?"
+	}
+	return strconv.Itoa(s.tag)
+}
 
 func current() (c px.Context, ok bool) {
 	defer func() {
@@ -445,8 +483,14 @@ func happensBefore(owner *ginfo, at int64, g *ginfo) bool {
 
 // ---- interpreter ---------------------------------------------------------------------------------------
 
-func (r *runner) yield() {
+func (r *runner) yield(g *ginfo) {
 	if !r.gated {
+		return
+	}
+	if r.inter {
+		turn := make(chan struct{})
+		r.ctl <- ievt{gid: g.gid, parked: true, turn: turn}
+		<-turn
 		return
 	}
 	if len(r.sched) == 0 {
@@ -494,15 +538,15 @@ func (r *runner) ctxName(v interface{}) string {
 }
 
 func (r *runner) setTag(s *sctx, id int) {
-	c := cell{val: id, by: s.serial, at: r.tick()}
-	s.real.Set(tagKey, c)
-	s.vars[tagKey] = c
+	r.mu.Lock()
+	s.tag = id
+	r.mu.Unlock()
 }
 
 func (r *runner) run(n *node, g *ginfo, s *sctx) {
 	c := s.real
 	if leafOps[n.op] {
-		r.yield()
+		r.yield(g)
 	}
 	switch n.op {
 	case "obs":
@@ -524,15 +568,9 @@ func (r *runner) run(n *node, g *ginfo, s *sctx) {
 				r.fail("wrong-current", "goroutine g%d observes %s inside the body of context %d", g.gid, r.ctxName(cur), s.serial)
 			}
 		} else {
-			r.checkVar(s, tagKey, "obs")
 			r.checkStack(s, "obs")
 		}
-		tag := "?"
-		if v, ok := cur.Get(tagKey); ok {
-			if cl, ok := v.(cell); ok {
-				tag = strconv.Itoa(cl.val)
-			}
-		}
+		tag := r.tagOf(cur)
 		st := cur.Stack()
 		ls := make([]string, len(st))
 		for i, l := range st {
@@ -549,6 +587,27 @@ func (r *runner) run(n *node, g *ginfo, s *sctx) {
 			r.emit(g, "g"+n.k+"="+strconv.Itoa(act.val))
 		} else {
 			r.emit(g, "g"+n.k+"=-")
+		}
+	case "del":
+		c.Delete(n.k)
+		delete(s.vars, n.k)
+	case "pop":
+		// StackPop on an empty stack slices out of range: the runtime panic is turned into the program's panic value
+		func() {
+			defer func() {
+				if e := recover(); e != nil {
+					if len(s.stack) != 0 {
+						r.fail("wrong-stack", "StackPop panicked on context %d whose stack must hold %d frame(s)", s.serial, len(s.stack))
+					}
+					panic(errBoom)
+				}
+			}()
+			c.StackPop()
+		}()
+		if len(s.stack) == 0 {
+			r.fail("wrong-stack", "StackPop did not panic on context %d whose stack must be empty", s.serial)
+		} else {
+			s.stack = s.stack[:len(s.stack)-1]
 		}
 	case "push":
 		at := r.tick()
@@ -721,7 +780,12 @@ func (r *runner) spawn(n *node, g *ginfo, s *sctx) {
 	doer := func(cf px.Context) {
 		defer r.wg.Done()
 		<-t.gate
-		defer close(t.done)
+		defer func() {
+			close(t.done)
+			if r.inter {
+				r.ctl <- ievt{gid: gid}
+			}
+		}()
 		r.goroutine(cg, func() {
 			r.bind(x, cf)
 			if cur, ok := current(); !ok || cur != cf {
@@ -749,7 +813,9 @@ func (r *runner) spawn(n *node, g *ginfo, s *sctx) {
 		px.Go(doer)
 	}
 	started = true
-	if r.gated {
+	if r.inter {
+		r.waiting = append(r.waiting, t)
+	} else if r.gated {
 		r.pending = append(r.pending, t)
 	}
 }
@@ -780,7 +846,7 @@ func newRunner(gated bool, sched []int, n *node) *runner {
 	r := &runner{gated: gated, sched: sched, nextGid: 1, logs: map[int]*glog{}, byReal: map[px.Context]*sctx{}, bySer: map[int]*sctx{}}
 	ks := map[string]bool{}
 	n.walk(func(x *node) {
-		if x.op == "set" || x.op == "get" {
+		if x.op == "set" || x.op == "get" || x.op == "del" {
 			ks[x.k] = true
 		}
 	})
@@ -791,41 +857,45 @@ func newRunner(gated bool, sched []int, n *node) *runner {
 	return r
 }
 
+// rootBody is what the fresh goroutine 0 does: pcore.Do(term), then a look at what Do left behind
+func (r *runner) rootBody(n *node, g0 *ginfo) (curTag string, rootLeft bool) {
+	if rawCurrent() != nil {
+		r.fail("leaked-to-other-goroutine", "a fresh goroutine starts with a current context")
+	}
+	r.goroutine(g0, func() {
+		pcore.Do(func(c px.Context) {
+			x := r.newShadow(nil, g0)
+			r.bind(x, c)
+			if cur, ok := current(); !ok || cur != c {
+				r.fail("wrong-current", "inside Do the current context is %s", r.ctxName(rawCurrent()))
+			}
+			r.setTag(x, 1000)
+			defer r.audit(x, "end of Do")
+			r.seq([]*node{n}, g0, x)
+		})
+	})
+	curTag = "-"
+	if v := rawCurrent(); v != nil {
+		rootLeft = true
+		curTag = "?"
+		if c, ok := v.(px.Context); ok {
+			curTag = r.tagOf(c)
+		}
+		r.fail("not-restored", "after Do returned on a fresh goroutine its current context is still set (%s)", r.ctxName(v))
+	}
+	return
+}
+
 // root runs pcore.Do(term) on a fresh goroutine and joins everything; returns the trailer observations
 func (r *runner) root(n *node) (curTag string, rootLeft bool) {
+	if r.inter {
+		return r.rootInter(n)
+	}
 	done := make(chan struct{})
 	g0 := &ginfo{gid: 0}
 	go func() {
 		defer close(done)
-		if rawCurrent() != nil {
-			r.fail("leaked-to-other-goroutine", "a fresh goroutine starts with a current context")
-		}
-		r.goroutine(g0, func() {
-			pcore.Do(func(c px.Context) {
-				x := r.newShadow(nil, g0)
-				r.bind(x, c)
-				if cur, ok := current(); !ok || cur != c {
-					r.fail("wrong-current", "inside Do the current context is %s", r.ctxName(rawCurrent()))
-				}
-				r.setTag(x, 1000)
-				defer r.audit(x, "end of Do")
-				r.seq([]*node{n}, g0, x)
-			})
-		})
-		// what Do left behind on this goroutine
-		curTag = "-"
-		if v := rawCurrent(); v != nil {
-			rootLeft = true
-			curTag = "?"
-			if c, ok := v.(px.Context); ok {
-				if tv, ok := c.Get(tagKey); ok {
-					if cl, ok := tv.(cell); ok {
-						curTag = strconv.Itoa(cl.val)
-					}
-				}
-			}
-			r.fail("not-restored", "after Do returned on a fresh goroutine its current context is still set (%s)", r.ctxName(v))
-		}
+		curTag, rootLeft = r.rootBody(n, g0)
 	}()
 	<-done
 	for r.gated && len(r.pending) > 0 {
@@ -833,6 +903,58 @@ func (r *runner) root(n *node) (curTag string, rootLeft bool) {
 		r.pending = r.pending[1:]
 		close(t.gate)
 		<-t.done
+	}
+	r.wg.Wait()
+	return
+}
+
+// rootInter is the controller of the leaf-level interleaving: exactly one goroutine of the program runs at any time; when
+// it parks (before a leaf) or ends, the next choice picks who goes on among the goroutines that have not ended
+func (r *runner) rootInter(n *node) (curTag string, rootLeft bool) {
+	r.ctl = make(chan ievt)
+	r.turns = map[int]chan struct{}{}
+	g0 := &ginfo{gid: 0}
+	t0 := &task{gid: 0, gate: make(chan struct{}), done: make(chan struct{})}
+	go func() {
+		<-t0.gate
+		curTag, rootLeft = r.rootBody(n, g0)
+		r.ctl <- ievt{gid: 0}
+	}()
+	r.waiting = []*task{t0}
+	for {
+		ids := make([]int, 0, len(r.waiting)+len(r.turns))
+		for _, t := range r.waiting {
+			ids = append(ids, t.gid)
+		}
+		for gid := range r.turns {
+			ids = append(ids, gid)
+		}
+		if len(ids) == 0 {
+			break
+		}
+		sort.Ints(ids)
+		d := 0
+		if len(r.sched) > 0 {
+			d = r.sched[0]
+			r.sched = r.sched[1:]
+		}
+		gid := ids[d%len(ids)]
+		if turn, ok := r.turns[gid]; ok {
+			delete(r.turns, gid)
+			close(turn)
+		} else {
+			for i, t := range r.waiting {
+				if t.gid == gid {
+					r.waiting = append(append([]*task(nil), r.waiting[:i]...), r.waiting[i+1:]...)
+					close(t.gate)
+					break
+				}
+			}
+		}
+		ev := <-r.ctl
+		if ev.parked {
+			r.turns[ev.gid] = ev.turn
+		}
 	}
 	r.wg.Wait()
 	return
@@ -906,12 +1028,12 @@ var gmpLock sync.Mutex
 
 func exec(c px.Context, op string, args []sx.Sexp) core.Result {
 	switch op {
-	case "prog", "progs":
+	case "prog", "progs", "progi":
 		var sched []int
 		var term sx.Sexp
 		if op == "prog" && len(args) == 1 {
 			term = args[0]
-		} else if op == "progs" && len(args) == 2 && args[0].IsList {
+		} else if (op == "progs" || op == "progi") && len(args) == 2 && args[0].IsList {
 			for _, d := range args[0].List {
 				n, ok := natOf(d)
 				if !ok {
@@ -933,12 +1055,17 @@ func exec(c px.Context, op string, args []sx.Sexp) core.Result {
 		defer runtime.GOMAXPROCS(old)
 		base := threadlocal.VerifLiveTables()
 		r := newRunner(true, sched, n)
+		r.inter = op == "progi"
 		curTag, _ := r.root(n)
+		r.finalAudit()
 		live := waitLive(base, 100*time.Millisecond)
 		if live != 0 {
 			r.fail("tls-leak", "%d goroutine-local table(s) still allocated after Do returned on a fresh goroutine and every forked goroutine ended", live)
 		}
 		res := core.Result{Out: r.render(curTag, live), Pred: r.pred(), Tags: tagsOf(n, r, len(sched) > 0)}
+		if r.inter {
+			res.Tags = append(res.Tags, "interleaved")
+		}
 		n.walk(func(x *node) {
 			switch x.op {
 			case "doctx", "do", "doparent", "try", "doloader", "fork", "go":
@@ -969,6 +1096,7 @@ func exec(c px.Context, op string, args []sx.Sexp) core.Result {
 			go func(r *runner) {
 				defer wg.Done()
 				r.root(n)
+				r.finalAudit()
 			}(rs[i])
 		}
 		wg.Wait()
@@ -1018,7 +1146,9 @@ var exLeaves = []func() *node{
 	func() *node { return &node{op: "obs"} },
 	func() *node { return &node{op: "set", k: "a"} },
 	func() *node { return &node{op: "get", k: "a"} },
+	func() *node { return &node{op: "del", k: "a"} },
 	func() *node { return &node{op: "push"} },
+	func() *node { return &node{op: "pop"} },
 	func() *node { return &node{op: "deftype", k: "A"} },
 	func() *node { return &node{op: "load", k: "A"} },
 	func() *node { return &node{op: "panic"} },
@@ -1112,6 +1242,12 @@ func emitProg(g *core.G, n *node, scheds ...[]int) {
 	}
 }
 
+func emitInter(g *core.G, n *node, choices ...[]int) {
+	for _, s := range choices {
+		g.Emit("progi " + schedStr(s) + " " + n.sexp().String())
+	}
+}
+
 func wrap(f []*node) *node {
 	if len(f) == 1 {
 		return f[0]
@@ -1123,6 +1259,9 @@ var (
 	eager   = []int{1, 1, 1, 1, 1, 1, 1, 1, 1, 1, 1, 1}
 	delayed = []int{0, 1, 0, 1, 0, 1, 0, 1, 0, 1}
 	second  = []int{2, 0, 2, 0, 1, 1, 1, 1}
+	// leaf-level interleaving: strict alternation between the two oldest runnable goroutines / always the youngest
+	alternate = []int{0, 1, 0, 1, 0, 1, 0, 1, 0, 1, 0, 1, 0, 1, 0, 1}
+	youngest  = []int{0, 7, 7, 7, 7, 7, 7, 7, 7, 7, 7, 7, 7, 7, 7, 7}
 )
 
 type rgen struct {
@@ -1135,7 +1274,17 @@ type rgen struct {
 func (x *rgen) leaf() *node {
 	keys := []string{"a", "b"}
 	names := []string{"A", "B"}
-	switch x.r.Intn(12) {
+	switch x.r.Intn(15) {
+	case 12:
+		if x.last != "" && x.r.Intn(2) == 0 {
+			return &node{op: "del", k: x.last}
+		}
+		return &node{op: "del", k: core.Pick(x.r, keys)}
+	case 13:
+		return &node{op: "pop"}
+	case 14:
+		x.val++
+		return &node{op: "push", n: x.val}
 	case 0, 1:
 		return &node{op: "obs"}
 	case 2, 3, 4:
@@ -1193,6 +1342,99 @@ func (x *rgen) forest(size int) []*node {
 	return r
 }
 
+// ---- state shapes × scope kinds × child actions × observers ------------------------------------------------
+//
+// Every piece of per-context state is taken through its representation states before a context is derived from it:
+// variables never set / set / set and all deleted again (an allocated, EMPTY map) / several set and deleted; stack never
+// pushed / pushed / pushed and popped back to empty; loader without / with definitions / inside a loader scope.  Then a
+// derived context is made in every way pcore offers (Fork, Go, and on the same goroutine DoWithContext of a fork,
+// DoWithParent, Do, Try), its body changes each kind of state, and the parent — or a sibling derived afterwards in
+// either way — looks.  Second generation: the same from inside a forked goroutine.
+
+func leafN(op, k string) *node { return &node{op: op, k: k} }
+
+func clone(ns []*node) []*node {
+	r := make([]*node, len(ns))
+	for i, n := range ns {
+		r[i] = &node{op: n.op, k: n.k, n: n.n, kids: clone(n.kids)}
+	}
+	return r
+}
+
+func shapePreps() [][]*node {
+	set, del := func(k string) *node { return leafN("set", k) }, func(k string) *node { return leafN("del", k) }
+	push, pop := &node{op: "push"}, &node{op: "pop"}
+	return [][]*node{
+		{},
+		{set("a")},
+		{set("a"), del("a")},
+		{set("a"), set("b"), del("b"), del("a")},
+		{set("b"), del("a")},
+		{push},
+		{push, pop},
+		{push, push, pop, pop, set("a"), del("a")},
+		{leafN("deftype", "A")},
+		{leafN("load", "A")},
+	}
+}
+
+func shapeActs() [][]*node {
+	return [][]*node{
+		{leafN("set", "a")},
+		{leafN("set", "a"), leafN("del", "a")},
+		{leafN("del", "a"), leafN("set", "b")},
+		{{op: "push"}},
+		{{op: "push"}, {op: "pop"}},
+		{leafN("deftype", "A")},
+		{{op: "doloader", kids: []*node{leafN("deftype", "A"), leafN("set", "a")}}},
+		{leafN("set", "a"), {op: "push"}, leafN("deftype", "A"), leafN("get", "a")},
+	}
+}
+
+func shapeLook() []*node {
+	return []*node{leafN("get", "a"), leafN("get", "b"), {op: "obs"}, leafN("load", "A")}
+}
+
+func genShapes(g *core.G) {
+	kinds := []string{"fork", "go", "doctx", "doparent", "do", "try"}
+	emit := func(f []*node) {
+		next := 0
+		t := number(wrap(clone(f)), &next)
+		if hasSpawn(t) {
+			emitProg(g, t, eager)
+			emitInter(g, t, alternate)
+		} else {
+			emitProg(g, t)
+		}
+	}
+	scope := func(kind string, body []*node) *node { return &node{op: kind, kids: body} }
+	for _, prep := range shapePreps() {
+		for _, kind := range kinds {
+			for _, act := range shapeActs() {
+				// the parent looks
+				emit(append(append(append([]*node{}, prep...), scope(kind, act)), shapeLook()...))
+				// a sibling derived afterwards looks (goroutine and same-goroutine flavour)
+				for _, sk := range []string{"fork", "go", "doctx"} {
+					emit(append(append(append([]*node{}, prep...), scope(kind, act)), scope(sk, shapeLook())))
+				}
+			}
+		}
+	}
+	// second generation: inside a forked goroutine (and inside a nested context of it)
+	for _, outer := range []string{"fork", "go"} {
+		for _, prep := range shapePreps()[1:8] {
+			for _, kind := range []string{"fork", "go", "doctx", "doparent"} {
+				for _, act := range shapeActs()[:6] {
+					inner := append(append(append([]*node{}, prep...), scope(kind, act)), shapeLook()...)
+					emit([]*node{leafN("set", "b"), scope(outer, inner), leafN("get", "a"), leafN("get", "b")})
+					inner2 := append(append(append([]*node{}, prep...), scope(kind, act)), scope("go", shapeLook()))
+					emit([]*node{scope(outer, []*node{scope("doctx", inner2)}), {op: "obs"}})
+				}
+			}
+		}
+	}
+}
+
 func gen(g *core.G) {
 	// 1. the exhaustive small universe: every forest of at most 4 (quick) / 5 (thorough) nodes
 	max := 4
@@ -1206,11 +1448,14 @@ func gen(g *core.G) {
 			t := number(wrap(f), &next)
 			if hasSpawn(t) {
 				emitProg(g, t, eager, delayed)
+				emitInter(g, t, alternate)
 			} else {
 				emitProg(g, t)
 			}
 		}
 	}
+	// 1b. state shapes × scope kinds × child actions × observers
+	genShapes(g)
 	// 2. random programs of size 12 (and a few larger) under random oracles
 	x := &rgen{r: g.Rng}
 	for i := 0; i < 2500*g.Scale; i++ {
@@ -1237,6 +1482,22 @@ func gen(g *core.G) {
 			}
 		}
 		emitProg(g, t, ss...)
+		if hasSpawn(t) {
+			cs := [][]int{alternate}
+			for k := 0; k < 2; k++ {
+				c := make([]int, 8+x.r.Intn(40))
+				for j := range c {
+					c[j] = x.r.Intn(5)
+				}
+				cs = append(cs, c)
+			}
+			if i%3 == 0 {
+				cs = append(cs, youngest)
+			}
+			emitInter(g, t, cs...)
+		} else if i%5 == 0 {
+			emitInter(g, t, nil)
+		}
 	}
 	// 3. many goroutines under the real scheduler (implementation only)
 	for i := 0; i < 150*g.Scale; i++ {
